@@ -35,6 +35,8 @@ theorem ratios : refRatios.all (ratioOk table 1000000000000) = true := by decide
 theorem looseRatios : refLooseRatios.all (ratioOk table 100) = true := by decide +kernel
 
 theorem prefixMult : table.prefixes.all prefixMultOk = true := by decide +kernel
+/-- the prefix table is exactly the reference prefix table (SI + binary, with both kilo symbols) -/
+theorem prefixRef : prefixesMatchRef table.prefixes refPrefixes = true := by decide +kernel
 theorem prefixDistinct : prefixesDistinct table.prefixes = true := by decide +kernel
 
 /-- spellings that differ only in case resolve differently (unit symbol, multiple) -/
